@@ -272,16 +272,29 @@ def rule_log_cleaning(ctx, r):
             f"with targets A, B and logs of A, B, old, gone in {listed}, log cleaning removes {removed}: it must remove exactly the logs of `old` and `gone` "
             "(targets that left the workflow) and never a log of a current target", cl.where)
     run_f = idx.func("gwf.plugins.run:run")
-    guard = None
-    for n in walk_no_nested(run_f.node):
-        if isinstance(n, ast.If) and any(isinstance(c.func, ast.Name) and c.func.id == "clean_logs" for c in _calls(n)):
-            guard = n
     from ..astutil import truth_table
+    from ..index import ancestors
+    site = None
+    for c in _calls(run_f.node):
+        if isinstance(c.func, ast.Name) and c.func.id == "clean_logs":
+            site = c
     ok = False
-    if guard is not None:
+    if site is not None:
         atoms = {"cfg": lambda e: ast.unparse(e).replace('"', "'") in ("ctx.config.get('clean_logs')", "ctx.config['clean_logs']"), "dry": lambda e: dotted(e) == "dry_run"}
-        tt = truth_table(guard.test, atoms)  # keys (cfg, dry)
-        ok = tt == {(False, False): False, (False, True): False, (True, False): True, (True, True): False}
+        tables = []
+        node = site
+        for a in ancestors(site):
+            if isinstance(a, ast.If):
+                in_body = any(node is s_ or node in list(ast.walk(s_)) for s_ in a.body)
+                tt = truth_table(a.test, atoms)
+                tables.append({k: (v if in_body else (None if v is None else not v)) for k, v in tt.items()})
+            node = a
+        if tables:
+            comb = {}
+            for k in tables[0]:
+                vals = [t[k] for t in tables]
+                comb[k] = False if any(v is False for v in vals) else (None if any(v is None for v in vals) else True)
+            ok = comb == {(False, False): False, (False, True): False, (True, False): True, (True, True): False}
     r.check(ok, f"{run_f.module.relpath}::{run_f.qual}::clean_logs-guard", "logs are cleaned iff config clean_logs and not dry_run",
             "log cleaning is not guarded by `config clean_logs and not dry_run` (it runs when switched off or during a dry run)", run_f.where)
     others = [f for f in idx.functions.values() if f.key != run_f.key for c in _calls(f.node) if isinstance(c.func, ast.Name) and c.func.id == "clean_logs"
